@@ -883,6 +883,48 @@ class Engine:
             return [(OK, s, Val(z3.Lambda([yq], z3.Exists([kq], z3.And(cond, elt.term == yq))), SetT(elt.ty)))]
         return bind(self.eval(g.iter, st), k)
 
+    def e_DictComp(self, node, st):
+        """{k: value(k) for k in keys [if cond]}: a map defined pointwise over the iterated keys (the key expression must be the loop variable)."""
+        if len(node.generators) != 1 or node.generators[0].is_async:
+            raise Unsupported("nested dict comprehension")
+        g = node.generators[0]
+        if not (isinstance(g.target, ast.Name) and isinstance(node.key, ast.Name) and node.key.id == g.target.id):
+            raise Unsupported("dict comprehension whose key is not the loop variable")
+
+        def k(s, it):
+            if isinstance(it, Val) and isinstance(it.ty, SetT):
+                kty, member_of = it.ty.elem, (lambda q: z3.Select(it.term, q))
+            elif isinstance(it, Val) and isinstance(it.ty, SeqT):
+                kty = it.ty.elem
+                elems = ops.seq_elems(it.term, kty.sort())
+                member_of = lambda q: z3.Select(elems, q)
+            elif isinstance(it, Val) and isinstance(it.ty, MapT):
+                kty, member_of = it.ty.key, (lambda q: it.ty.opt.is_some(z3.Select(it.term, q)))
+            else:
+                raise Unsupported(f"dict comprehension over {it!r}")
+            kq = z3.Const(fresh_name("dck"), kty.sort())
+            s2 = s.fork()
+            s2.assume(member_of(kq))
+            res = bind(self.assign_target(g.target, Val(kq, kty), s2), lambda s3, _v: self.eval_many(list(g.ifs) + [node.value], s3))
+            ok = [r for r in res if r[0] == OK]
+            bad = [r for r in res if r[0] != OK]
+            if not ok:
+                raise Unsupported("dict comprehension body never completes")
+            out = list(bad)                 # e.g. an exception of the value expression for some key: the comprehension raises
+            for _kind, s_ok, vs in ok:      # one result per way the body can evaluate (e.g. a cached property being filled or not)
+                val = vs[-1]
+                if not isinstance(val, Val):
+                    raise Unsupported("dict comprehension value")
+                cond = z3.And([member_of(kq)] + [truthy(c) for c in vs[:-1]])
+                mty = MapT(kty, val.ty)
+                m = z3.Const(fresh_name("dcomp"), mty.sort())
+                # facts established while evaluating the body for an arbitrary member stay (they only mention that fresh member);
+                # implicit-exception obligations of the body were raised for that arbitrary member, i.e. for every member
+                s_ok.assume(z3.ForAll([kq], z3.Select(m, kq) == z3.If(cond, mty.opt.some(val.term), mty.opt.none())))
+                out.append((OK, s_ok, Val(m, mty)))
+            return out
+        return bind(self.eval(g.iter, st), k)
+
     def e_Starred(self, node, st):
         raise Unsupported("starred expression")
 
